@@ -107,3 +107,6 @@ package schema
 //@ immutable CheckConstraint.Name
 //@   writers schema.(*Schema).ParseCheckConstraints
 //@   tags C20
+//@ immutable Relationship.Type
+//@   writers schema.(*Schema).parseRelation schema.(*Schema).buildPolymorphicRelation schema.(*Schema).buildMany2ManyRelation schema.(*Schema).guessRelation
+//@   tags C12
